@@ -49,7 +49,8 @@ def prepare():
     base.prepare_common()
     import eliot.logwriter  # noqa
     found = seams.install()
-    seams.require_seams("SimpleQueue", "threading")
+    # (how the writer queues and which thread primitives it uses is the implementation's business; what is
+    # not re-bound simply runs on the real primitive)
     base.monitoring()
     _sched.enable_monitoring(seams.ELIOT_SRC.rstrip("/") + "/eliot", None)
 
@@ -174,8 +175,11 @@ def run_one(seed, dec):
 
 def oracle(rc, cfg, dest, checks, offered, STOP):
     # thread identity: only reader threads call the wrapped destination; one reader per cycle
+    # (threads the service started itself, whatever it names them; never a producer, the caller of
+    # start/stopService or the reactor's pool)
+    own_threads = set(a.name for a in rc.sched.actors if "simthread" in a.data)
     for r in dest.records:
-        if not r.actor.startswith("simthread"):
+        if r.actor not in own_threads:
             raise Violation(("wrong_thread", {"thread": r.actor.split(".")[0].rstrip("0123456789#")}),
                             "the wrapped destination was called on thread %s" % r.actor)
     delivered_all = [r.msg.get("nid") for r in dest.records]
@@ -184,7 +188,14 @@ def oracle(rc, cfg, dest, checks, offered, STOP):
         if n in seen:
             raise Violation("duplicated", "message nid=%s was passed to the wrapped destination twice" % n)
         seen.add(n)
+    prev = 0
     for c in checks:
+        writers = sorted(set(r.actor for r in dest.records[prev:len(c["delivered"])]))
+        prev = len(c["delivered"])
+        if len(writers) > 1:
+            raise Violation(("wrong_thread", {"thread": "several"}),
+                            "cycle %d: the wrapped destination was called on %d different threads: %s" % (
+                                c["cycle"], len(writers), writers))
         # messages in the order they were put on the queue (whatever else the implementation queues --
         # e.g. a stop marker -- is not a dict and is ignored)
         put_msgs = [(stamp, x.get("nid")) for stamp, x in c["puts"] if isinstance(x, dict)]
@@ -202,8 +213,8 @@ def oracle(rc, cfg, dest, checks, offered, STOP):
             raise Violation(("not_passed_on", {"how": "lost"}),
                             "cycle %d: when stopService's deferred fired the wrapped destination had been called "
                             "with %s; queued before the stop request but not written: %s" % (c["cycle"], got, missing))
-        if c["thread_alive"]:
-            raise Violation("reader_alive", "cycle %d: reader thread still alive after stopService completed" % c["cycle"])
+        # (whether the reader thread object is still alive at that instant is not part of the property: a
+        # writer that signals completion from the thread just before it returns is as good)
         # everything whose __call__ returned before stopService was invoked is among them
         for n, (inv, ret) in offered.items():
             if inv > c["started"] and ret < c["stop_inv"] and n not in got:
